@@ -1233,11 +1233,9 @@ class Interp:
         if t in (ast.In, ast.NotIn):
             r = self.contains(b, a)
             return r if t is ast.In else s_not(r)
-        if isinstance(a, Tensor) and a.shape == () and not isinstance(b, Tensor):
-            a = a.item()
-        if isinstance(b, Tensor) and b.shape == () and not isinstance(a, Tensor):
-            b = b.item()
         o = {ast.Eq: '==', ast.NotEq: '!=', ast.Gt: '>', ast.GtE: '>=', ast.Lt: '<', ast.LtE: '<='}[t]
+        if (isinstance(a, Tensor) and (b is None or isinstance(b, (str, Obj)))) or (isinstance(b, Tensor) and (a is None or isinstance(a, (str, Obj)))):
+            return o == '!='
         if isinstance(a, Tensor):
             return a.cmp(o, b)
         if isinstance(b, Tensor):
